@@ -146,6 +146,8 @@ class HttpProxyPlugin(HttpProtocolHandlerPlugin):
         # Follow-up requests held back until the responses still
         # outstanding on another origin's connection have been relayed
         self.deferred_requests: List[HttpParser] = []
+        # Methods of the requests whose responses are outstanding
+        self.outstanding_methods: List[Optional[bytes]] = []
 
         self.plugins: Dict[str, HttpProxyBasePlugin] = {}
         if b'HttpProxyBasePlugin' in self.flags.plugins:
@@ -297,8 +299,9 @@ class HttpProxyPlugin(HttpProtocolHandlerPlugin):
                         self.handle_pipeline_response(raw)
                     else:
                         self.response.parse(raw)
-                        if self.response.is_complete:
-                            self.responses_completed += 1
+                        if self._response_done(self.response):
+                            if self.response.buffer is not None:
+                                self.handle_pipeline_response(memoryview(b''))
                             self._forward_deferred()
                         self.emit_response_events(len(raw))
                 else:
@@ -581,6 +584,7 @@ class HttpProxyPlugin(HttpProtocolHandlerPlugin):
                     ),
                 )
                 self.requests_forwarded += 1
+                self.outstanding_methods.append(self.request.method)
         return False
 
     def _names_other_origin(self, request: HttpParser) -> bool:
@@ -593,7 +597,7 @@ class HttpProxyPlugin(HttpProtocolHandlerPlugin):
         """A request for another origin cannot be sent while responses
         are outstanding on the connection to the current one."""
         return self._names_other_origin(request) and \
-            self.requests_forwarded > self.responses_completed
+            len(self.outstanding_methods) > 0
 
     def _forward_follow_up(self, request: HttpParser) -> None:
         """Sends a follow-up request of a kept-alive client connection to
@@ -627,6 +631,7 @@ class HttpProxyPlugin(HttpProtocolHandlerPlugin):
             ),
         )
         self.requests_forwarded += 1
+        self.outstanding_methods.append(request.method)
 
     def _forward_deferred(self) -> None:
         while len(self.deferred_requests) > 0 and \
@@ -663,12 +668,42 @@ class HttpProxyPlugin(HttpProtocolHandlerPlugin):
                     httpParserTypes.RESPONSE_PARSER,
                 )
             self.pipeline_response.parse(raw)
-            if not self.pipeline_response.is_complete:
+            if not self._response_done(self.pipeline_response):
                 break
             raw = self.pipeline_response.buffer or memoryview(b'')
             self.pipeline_response = None
-            self.responses_completed += 1
             self._forward_deferred()
+
+    def _response_done(self, response: HttpParser) -> bool:
+        """True once the response message being tracked has been received
+        completely.  Responses to HEAD requests and 1xx, 204 and 304
+        responses end with their headers, whatever length they announce.
+        Interim (1xx) responses do not answer a request."""
+        code = response.code or b''
+        if not response.is_complete:
+            bodyless = (
+                len(self.outstanding_methods) > 0 and
+                self.outstanding_methods[0] == httpMethods.HEAD
+            ) or code in (b'204', b'304') or code[:1] == b'1'
+            if not bodyless or response.state not in (
+                    httpParserStates.HEADERS_COMPLETE,
+                    httpParserStates.RCVING_BODY,
+            ):
+                return False
+            # What the parser may have taken for a body is the
+            # beginning of the next message
+            rest = (response.body or b'') + (
+                response.buffer.tobytes() if response.buffer else b''
+            )
+            response.body = None
+            response.buffer = memoryview(rest) if len(rest) > 0 else None
+            response.state = httpParserStates.COMPLETE
+        if code[:1] == b'1' and code != b'101':
+            return True
+        self.responses_completed += 1
+        if len(self.outstanding_methods) > 0:
+            self.outstanding_methods.pop(0)
+        return True
 
     def connect_upstream(self) -> None:
         host, port = self.request.host, self.request.port
